@@ -390,3 +390,238 @@ class RegionRotate90(RegionTransform):
                 ou[i1], ou[i2] = ou[i2], ou[i1]
             units = tuple(ou)
         return s.fresh_region(E, st, units)
+
+
+# ====================================================================== Mesh-level transformations
+def inv_mesh(E, m, ndim):
+    a = m.attrs
+    out = []
+    nn = a.get('_n')
+    ok = isinstance(nn, Vec) and len(nn) == ndim and nn.kind == 'int'
+    out.append(('n is an integer array of length ndim', ok))
+    if ok:
+        out.append(('n >= 1 in every direction', conj([I(k) >= 1 for k in nn.elems])))
+    reg = a.get('_region')
+    if not isinstance(reg, Obj) or reg.cls != 'Region':
+        out.append(('region is a Region', False))
+    else:
+        out += inv_region(E, reg, ndim)
+    out.append(('subregions is a dict of Regions', isinstance(a.get('_subregions'), dict) and
+                all(isinstance(v, Obj) and v.cls == 'Region' for v in a['_subregions'].values())))
+    return out
+
+
+class MeshTransform(Contract):
+    """receiver = arbitrary mesh satisfying Inv(Mesh) (with nsub lattice-aligned subregions)"""
+    region_contract = None
+
+    def frame(s, E, st):
+        return [('self', st.self)] if not st.inplace else []
+
+    def frame_on_raise(s, E, st):
+        return [('self', st.self)]
+
+    def mesh_post(s, E, st, result):
+        out = []
+        if st.inplace:
+            out.append(('in-place form returns the object itself', result is st.self))
+        else:
+            out.append(('copying form returns a new Mesh', isinstance(result, Obj) and result.cls == 'Mesh' and result is not st.self))
+        if not isinstance(result, Obj) or result.cls != 'Mesh':
+            return out, None
+        d = len(old_attr(st.old['self'], '_n'))
+        out += [('Inv: ' + l, c) for l, c in inv_mesh(E, result, d)]
+        out.append(('boundary conditions kept', _eq(E, result.attrs.get('_bc'), old_attr(st.old['self'], '_bc'))))
+        if not st.inplace:
+            out.append(('the copy does not share its region object with the original', result.attrs.get('_region') is not st.self.attrs.get('_region')))
+        osubs = st.old['self'][2]['_subregions'][2]
+        subs = result.attrs.get('_subregions')
+        out.append(('same subregion names', isinstance(subs, dict) and list(subs.keys()) == list(osubs.keys())))
+        return out, result
+
+    def region_clauses(s, E, st, rc, old_region_snap, new_region, tag):
+        """the region-level postcondition (same text as the Region contract) applied to (old snapshot -> new region)"""
+        rst = rc.bind(E, _SnapRegion(old_region_snap), st.rargs, dict(st.rkw, inplace=False))
+        rst.old = {'self': old_region_snap}
+        rst.self = _SnapRegion(old_region_snap)
+        rst.inplace = False
+        res = []
+        for l, c in rc.post(E, rst, new_region):
+            if l.startswith('copying form') or l.startswith('in-place form'):
+                continue
+            res.append((f'{tag}: {l}', c))
+        return res
+
+
+class _SnapRegion(Obj):
+    """read-only view of a region snapshot with the Obj interface (attrs) - lets the Region contracts talk about the OLD region"""
+
+    def __init__(s, snap):
+        s.cls = 'Region'
+        s.id = -1
+        d = snap[2]
+        s.attrs = {'_pmin': Vec(list(d['_pmin'][2])), '_pmax': Vec(list(d['_pmax'][2])), '_dims': d['_dims'][1],
+                   '_units': d['_units'][1], '_tolerance_factor': d['_tolerance_factor'][1]}
+
+
+class MeshTranslate(MeshTransform):
+    name = 'Mesh.translate'
+    qual = ('Mesh', 'translate')
+    func = 'Mesh.translate'
+
+    def configs(s, tier):
+        out = [{'ndim': d, 'inplace': ip, 'nsub': 0} for d in NDIMS[tier] for ip in (False, True)]
+        out += [{'ndim': d, 'inplace': True, 'nsub': 1} for d in NDIMS[tier]]
+        out += [{'ndim': 2, 'inplace': ip, 'nsub': 0, 'bad': 'len'} for ip in (False, True)]
+        return out
+
+    def pre_state(s, E, cfg):
+        d = cfg['ndim']
+        m, assume = sym_mesh(E, d, nsub=cfg['nsub'], tf=1e-12 if cfg['nsub'] else None, bc=DIMS[0] if d > 1 else '')
+        v = tuple(inp(E, f'v{j}', 'float') for j in range(d))
+        if cfg.get('bad') == 'len':
+            v = v[:1]
+        st = s.bind(E, m, [v], {'inplace': cfg['inplace']})
+        st.assume = assume
+        return st
+
+    def bind(s, E, selfobj, args, kw):
+        st = State(selfobj, args, kw)
+        a = dict(zip(['vector', 'inplace'], args))
+        a.update(kw)
+        st.inplace = a.get('inplace', False)
+        st.rargs, st.rkw = [a['vector']], {}
+        st.rst = RegionTranslate().bind(E, selfobj.attrs['_region'], st.rargs, {'inplace': st.inplace})
+        return st
+
+    def raises(s, E, st):
+        return RegionTranslate().raises(E, st.rst)
+
+    def post(s, E, st, result):
+        out, r = s.mesh_post(E, st, result)
+        if r is None:
+            return out
+        old = st.old['self']
+        out.append(('n kept', _eq(E, list(r.attrs['_n'].elems), list(old_attr(old, '_n')))))
+        rc = RegionTranslate()
+        out += s.region_clauses(E, st, rc, old[2]['_region'], r.attrs['_region'], 'region')
+        for k, sn in old[2]['_subregions'][2].items():
+            if k in r.attrs['_subregions']:
+                out += s.region_clauses(E, st, rc, sn, r.attrs['_subregions'][k], f'subregion {k}')
+        return out
+
+
+class MeshScale(MeshTransform):
+    name = 'Mesh.scale'
+    qual = ('Mesh', 'scale')
+    func = 'Mesh.scale'
+
+    def configs(s, tier):
+        out = []
+        for d in NDIMS[tier]:
+            for ip in (False, True):
+                out += [{'ndim': d, 'inplace': ip, 'nsub': 0, 'factor': 'scalar', 'ref': 'none'},
+                        {'ndim': d, 'inplace': ip, 'nsub': 0, 'factor': 'vector', 'ref': 'point'}]
+            out += [{'ndim': d, 'inplace': True, 'nsub': 1, 'factor': 'scalar', 'ref': 'none'},
+                    {'ndim': d, 'inplace': True, 'nsub': 1, 'factor': 'vector', 'ref': 'point'}]
+        return out
+
+    def pre_state(s, E, cfg):
+        d = cfg['ndim']
+        m, assume = sym_mesh(E, d, nsub=cfg['nsub'], tf=1e-12 if cfg['nsub'] else None)
+        fac = inp(E, 'f', 'float') if cfg['factor'] == 'scalar' else tuple(inp(E, f'f{j}', 'float') for j in range(d))
+        ref = None if cfg['ref'] == 'none' else tuple(inp(E, f'R{j}', 'float') for j in range(d))
+        st = s.bind(E, m, [fac], {'reference_point': ref, 'inplace': cfg['inplace']})
+        st.assume = assume
+        return st
+
+    def bind(s, E, selfobj, args, kw):
+        st = State(selfobj, args, kw)
+        a = dict(zip(['factor', 'reference_point', 'inplace'], args))
+        a.update(kw)
+        st.inplace = a.get('inplace', False)
+        ref = a.get('reference_point')
+        st.rst = RegionScale().bind(E, selfobj.attrs['_region'], [a['factor']], {'reference_point': ref, 'inplace': st.inplace})
+        # subregions are scaled about the SAME reference as the region (its centre by default)
+        st.rargs, st.rkw = [a['factor']], {'reference_point': tuple(st.rst.ref) if st.rst.ref is not None else None}
+        return st
+
+    def raises(s, E, st):
+        return RegionScale().raises(E, st.rst)
+
+    def post(s, E, st, result):
+        out, r = s.mesh_post(E, st, result)
+        if r is None:
+            return out
+        old = st.old['self']
+        out.append(('n kept', _eq(E, list(r.attrs['_n'].elems), list(old_attr(old, '_n')))))
+        rc = RegionScale()
+        out += s.region_clauses(E, st, rc, old[2]['_region'], r.attrs['_region'], 'region')
+        for k, sn in old[2]['_subregions'][2].items():
+            if k in r.attrs['_subregions']:
+                out += s.region_clauses(E, st, rc, sn, r.attrs['_subregions'][k], f'subregion {k}')
+        return out
+
+
+class MeshRotate90(MeshTransform):
+    name = 'Mesh.rotate90'
+    qual = ('Mesh', 'rotate90')
+    func = 'Mesh.rotate90'
+
+    def configs(s, tier):
+        out = []
+        for d in [x for x in NDIMS[tier] if x >= 2]:
+            pairs = [(a, b) for a in range(d) for b in range(d) if a != b]
+            if tier == 'quick' and d == 3:
+                pairs = [(0, 1), (2, 0), (1, 2)]
+            for a, b in pairs:
+                for ip in (False, True):
+                    out.append({'ndim': d, 'ax1': a, 'ax2': b, 'inplace': ip, 'nsub': 0, 'ref': 'point' if (a + b) % 2 else 'none'})
+                out.append({'ndim': d, 'ax1': a, 'ax2': b, 'inplace': True, 'nsub': 1, 'ref': 'none' if (a + b) % 2 else 'point'})
+        return out
+
+    def pre_state(s, E, cfg):
+        d = cfg['ndim']
+        m, assume = sym_mesh(E, d, nsub=cfg['nsub'], tf=1e-12 if cfg['nsub'] else None)
+        dims = m.attrs['_region'].attrs['_dims']
+        k = inp(E, 'k', 'int')
+        ref = None if cfg['ref'] == 'none' else tuple(inp(E, f'R{j}', 'float') for j in range(d))
+        st = s.bind(E, m, [dims[cfg['ax1']], dims[cfg['ax2']]], {'k': k, 'reference_point': ref, 'inplace': cfg['inplace']})
+        st.assume = assume
+        return st
+
+    def bind(s, E, selfobj, args, kw):
+        st = State(selfobj, args, kw)
+        a = dict(zip(['ax1', 'ax2', 'k', 'reference_point', 'inplace'], args))
+        a.update(kw)
+        st.inplace = a.get('inplace', False)
+        st.k = a.get('k', 1)
+        st.rst = RegionRotate90().bind(E, selfobj.attrs['_region'], [a['ax1'], a['ax2']],
+                                       {'k': st.k, 'reference_point': a.get('reference_point'), 'inplace': st.inplace})
+        st.rargs = [a['ax1'], a['ax2']]
+        st.rkw = {'k': st.k, 'reference_point': tuple(st.rst.ref) if st.rst.ref is not None else None}
+        return st
+
+    def raises(s, E, st):
+        return RegionRotate90().raises(E, st.rst)
+
+    def post(s, E, st, result):
+        out, r = s.mesh_post(E, st, result)
+        if r is None:
+            return out
+        old = st.old['self']
+        dims = old_attr(old, '_region', '_dims')
+        i1, i2 = dims.index(st.rargs[0]), dims.index(st.rargs[1])
+        on = list(old_attr(old, '_n'))
+        nn = r.attrs['_n'].elems
+        odd = (I(st.k) % 2) == 1
+        for j in range(len(on)):
+            src = i2 if j == i1 else (i1 if j == i2 else j)
+            out.append((f'n[{j}]: the cell counts of the two axes swap for odd k, stay otherwise',
+                        I(nn[j]) == z3.If(odd, I(on[src]), I(on[j]))))
+        rc = RegionRotate90()
+        out += s.region_clauses(E, st, rc, old[2]['_region'], r.attrs['_region'], 'region')
+        for k_, sn in old[2]['_subregions'][2].items():
+            if k_ in r.attrs['_subregions']:
+                out += s.region_clauses(E, st, rc, sn, r.attrs['_subregions'][k_], f'subregion {k_}')
+        return out
